@@ -279,3 +279,48 @@ def run(ctx):
     ctx.oblige("build:wtf-binary", "build", ok, out)
     if ok:
         cli_stream(ctx, wtf, 40 if ctx.tier == "quick" else 400)
+    # the most readable counterexample first: a command line for the real binary
+    rank = {"panic": 0, "success-but-unreadable-notebook": 1, "duplicate-command": 2, "neighbour-changed": 3, "saved-entry-differs": 4}
+    ctx.hits.sort(key=lambda h: (0 if "argv" in h["replay"] or "commands" in h["replay"] else 1, rank.get(h["cls"], 6)))
+
+
+def replay(ctx, rep):
+    """./check C08 --replay <file>"""
+    f = rep.get("failing") or {}
+    ctx.stage_build()
+    if "ops" in f or not ("argv_hex" in f):
+        items = [f] if "ops" in f else [o["detail"] for o in rep.get("broken_obligations", []) if isinstance(o.get("detail"), dict) and "ops" in o["detail"]]
+        if not items:
+            print(json.dumps(rep, indent=1)[:8000])
+            return 0
+        rc = 0
+        for it in items:
+            mm, il, ml, hits = core.run_single_case(ctx, "replay", it["domain"], it["ops"])
+            for o, a, b in zip(it["ops"], il, ml):
+                print("op   :", core.pretty(o)[:400], "\nimpl :", a[:400], "\nmodel:", b[:400])
+            print("monitor hits:", json.dumps(hits)[:3000])
+            rc = 1 if (mm or hits) else rc
+        return rc
+    ok, out, wtf = core.build_wtf_binary()
+    if not ok:
+        print(out)
+        return 2
+    d = os.path.join(ctx.rundir, "replay")
+    os.makedirs(os.path.join(d, "home"))
+    os.makedirs(os.path.join(d, "cwd"))
+    env = {"HOME": os.path.join(d, "home"), "XDG_CONFIG_HOME": os.path.join(d, "xdg"), "PATH": os.environ.get("PATH", "/usr/bin:/bin"), "NO_COLOR": "1"}
+    nb = os.path.join(d, "home", ".config", "cmd-finder", "personal.yml")
+    if f.get("start") == "empty":
+        os.makedirs(os.path.dirname(nb))
+        open(nb, "w").close()
+    rc = 0
+    for argv in [[a.encode("utf-8", "backslashreplace") for a in e] for e in f.get("earlier", [])] + [[bytes.fromhex(a) for a in f["argv_hex"]]]:
+        p = subprocess.run([wtf] + argv, cwd=os.path.join(d, "cwd"), env=env, stdin=subprocess.DEVNULL, stdout=subprocess.PIPE, stderr=subprocess.PIPE, timeout=60)
+        print("$ wtf", " ".join(repr(a)[1:] for a in argv), "\n  exit", p.returncode, "| stdout:", p.stdout.decode("utf-8", "replace")[:200].replace("\n", " / "),
+              "| stderr:", p.stderr.decode("utf-8", "replace")[:300].replace("\n", " / "))
+        ld = tool("loadnb", nb)
+        print("  notebook:", "loads, %d entries" % len(ld["entries"]) if ld.get("ok") else ("missing" if ld.get("missing") else "DOES NOT LOAD: " + ld.get("error", "")[:200]))
+        if b"panic" in p.stderr or (b"saved successfully" in p.stdout and not ld.get("ok")):
+            rc = 1
+    shutil.rmtree(ctx.rundir, ignore_errors=True)
+    return rc
